@@ -91,6 +91,92 @@ Theorem c04_no_refire : forall s o sched s' out fs h,
 Proof. exact no_refire_after_firing. Qed.
 Print Assumptions c04_no_refire.
 
+(* The invariant behind sentences 2 and 3: at every quiescent point that is
+   stable and open, [[NegotiationNeeded]] is set exactly when
+   checkNegotiationNeeded is true ([at_rest_ok]).
+
+   What is true of the model (and of the code): every call that reaches
+   onNegotiationNeeded -- AddTrack, RemoveTrack, AddTransceiverFromKind/Track,
+   CreateDataChannel, a remote offer / pranswer that creates transceivers,
+   setDescription entering stable -- ESTABLISHES the equivalence, from any
+   reachable state; every other call PRESERVES it, except two "quiet" calls
+   that can change what the check reads without calling onNegotiationNeeded:
+   ReplaceTrack (pion's step 5.3.1 compares the msid with the sender's present
+   track id; W3C compares stream ids only) and a CreateOffer that gives out mids
+   ([quiet_ok]). After one of those the flag may lag behind the check until the
+   next call that reaches onNegotiationNeeded. A fresh connection is the other
+   exception: the check is true (no local description) and nothing has fired
+   (c04_fresh_connection_not_synchronised). Operation set: every op of
+   Model/OfferShape.v -- pranswer as description type on both sides, Close at
+   any point, RemoveTrack on any transceiver, any number of data channels,
+   AddTransceiverFromTrack. *)
+Theorem c04_trigger_synchronises_flag_and_check : forall s o sched,
+  Inv (n_pc s) -> fx_triggers (snd (step (n_pc s) o)) <> 0 ->
+  at_rest_ok (fst (fst (nstep s o sched))).
+Proof. exact nstep_trigger_syncs. Qed.
+Print Assumptions c04_trigger_synchronises_flag_and_check.
+
+Theorem c04_quiet_call_preserves_flag_iff_check : forall s o sched,
+  at_rest_ok s -> fx_triggers (snd (step (n_pc s) o)) = 0 -> quiet_ok (n_pc s) o ->
+  at_rest_ok (fst (fst (nstep s o sched))).
+Proof. exact nstep_quiet_preserves. Qed.
+Print Assumptions c04_quiet_call_preserves_flag_iff_check.
+
+(* over histories: from a synchronised reachable state, along any history whose
+   every call reaches onNegotiationNeeded or is not one of the two quiet calls
+   ([calm]) ... *)
+Theorem c04_flag_iff_check_at_rest : forall h s,
+  Inv (n_pc s) -> at_rest_ok s -> calm s h ->
+  let s' := fst (nrun s h) in
+  p_closed (n_pc s') = false -> p_sig (n_pc s') = Stable ->
+  (n_flag s' = true <-> check_negotiation_needed (n_pc s') = Ok true).
+Proof. intros h s I A C. exact (flag_iff_check_at_rest h s I A C). Qed.
+Print Assumptions c04_flag_iff_check_at_rest.
+
+(* ... and from a fresh connection: any history, then a call that reaches
+   onNegotiationNeeded, then a calm history *)
+Theorem c04_flag_iff_check_from_first_trigger : forall always h1 o sched h2,
+  let s0 := fst (nrun (nn_init always) h1) in
+  fx_triggers (snd (step (n_pc s0) o)) <> 0 ->
+  calm (fst (fst (nstep s0 o sched))) h2 ->
+  at_rest_ok (fst (nrun (fst (fst (nstep s0 o sched))) h2)).
+Proof. exact flag_iff_check_from_first_trigger. Qed.
+Print Assumptions c04_flag_iff_check_from_first_trigger.
+
+Theorem c04_fresh_connection_not_synchronised : forall always, ~ at_rest_ok (nn_init always).
+Proof. exact fresh_not_at_rest_ok. Qed.
+Print Assumptions c04_fresh_connection_not_synchronised.
+
+(* Step 5.3.3 (current local description of type answer). pion compares the
+   answer's direction a with the transceiver's direction d ([plain_clause]);
+   W3C compares a with d "intersected with the offered direction" o
+   ([w3c_clause]). The two differ exactly when the answer was not a legal
+   response to the offer and nothing changed since (a = d), or when the
+   transceiver now wants more than the offer allowed and the answer is exactly
+   the allowed part. They agree whenever the transceiver's direction is within
+   the offered one, and SetRemoteDescription leaves it within the offer except
+   in the two situations recorded as open findings of C08 (a=sendonly offered to
+   a sendrecv / sendonly transceiver). The harness oracle judges by the W3C
+   clause whenever the local answer was a legal response, and makes no
+   prediction only after an answer that was not (C08). *)
+Theorem c04_answer_clause_readings_differ_iff : forall a o d,
+  plain_clause a d <> w3c_clause a o d <->
+  (a = d /\ ~ legal_response a o) \/ (a <> d /\ a = intersect_dir d o).
+Proof. exact answer_readings_differ_iff. Qed.
+Print Assumptions c04_answer_clause_readings_differ_iff.
+
+Theorem c04_answer_clause_readings_agree_within_offer : forall a o d,
+  intersect_dir d o = d -> plain_clause a d = w3c_clause a o d.
+Proof. exact answer_readings_agree_within_offer. Qed.
+Print Assumptions c04_answer_clause_readings_agree_within_offer.
+
+Theorem c04_remote_offer_keeps_direction_within_offer_except_c08 : forall o d0,
+  (o = Inactive -> d0 = Inactive) ->
+  intersect_dir (srd_direction o d0) o = srd_direction o d0
+  \/ (o = Sendonly /\ (d0 = Sendrecv \/ d0 = Sendonly)).
+Proof. exact srd_direction_within_offer. Qed.
+Print Assumptions c04_remote_offer_keeps_direction_within_offer_except_c08.
+
 (* Remarks: why the literal readings are not the property. Both behaviours are
    what W3C's algorithm prescribes; neither is a defect. *)
 
@@ -129,3 +215,21 @@ Example c04_still_needed_nontrivial :
   n_flag s = true
   /\ still_needed s (nosched [OAddTcvKind Audio (Some Recvonly) (w_enc 0); OCreateOffer; OSetLocal TOffer]).
 Proof. vm_compute. repeat split. Qed.
+
+(* the at-rest premises are satisfiable: after AddTrack and CreateOffer,
+   CreateDataChannel synchronises; a second data channel, an exchange with a
+   provisional answer, RemoveTrack, Close and RemoveTrack again form a calm history *)
+Example c04_at_rest_nontrivial :
+  let s0 := fst (nrun (nn_init false) (nosched [OAddTrack Video (w_enc 1); OCreateOffer])) in
+  let s := fst (fst (nstep s0 OCreateDC [])) in
+  at_rest_ok s /\ n_flag s = true
+  /\ calm s (nosched [OCreateDC; OCreateOffer; OSetLocal TOffer;
+                      OSetRemote TPranswer [{| sc_mid := Some "0"; sc_media := MVideo; sc_dir := Some Recvonly; sc_attrs := [] |}] w_engine;
+                      w_answer Recvonly; ORemoveTrack 0; OClose; ORemoveTrack 0]).
+Proof.
+  split; [|split].
+  - apply c04_trigger_synchronises_flag_and_check; [apply c04_reachable_invariant|vm_compute; discriminate].
+  - reflexivity.
+  - vm_compute. repeat split;
+      first [left; discriminate | right; exact I | right; repeat constructor; discriminate].
+Qed.
